@@ -263,10 +263,10 @@ def _judge(res: core.Res, s: str, fmt: str, ptypes: bool) -> None:
                     # the failure was in the renderer (to_stan error "<ExceptionClass>: ...") of a *field body*: pydoctor shows
                     # "Broken description" for that field and keeps the rest of the docstring
                     import re as _re
-                    # (a module or class docstring also holds the types of its variables, which are shown -- and fail -- with the variable)
-                    # (with processed types the body of a type field is shown in the name cell, token by token, and what fails there is simply absent)
-                    field_only = ('Broken description' in outs['docstring'] or kind in ('mod', 'cls') or (ptypes and _re.search(r'[@:](r|y)?type\b', s) is not None)) and \
-                        not any(ev[0] == 'parser-gave-up' for ev in body_gave_up) and \
+                    # (neither the parser nor the renderer of the *body* gave up -- those two are hooked and would have left an event --: what
+                    # failed is the renderer of a field body, which is reported through the same channel; the field then shows the placeholder, or
+                    # nothing at all when it is a type shown elsewhere or a field that a later one of the same kind replaces)
+                    field_only = not any(ev[0] in ('parser-gave-up', 'stan-gave-up') for ev in body_gave_up) and \
                         all(_re.match(r'^\w+(Exception|Error): ', str(d)) for ev in body_gave_up if ev[0] == 'fatal-error' for d in ev[3])
                     res.v('C08:field-body-failure-shows-broken-description' if field_only else 'C08:fallback-text-differs', f'{kind} docstring {s[:80]!r} ({fmt}): gave up, but the page does not show the complete original text as plain text (shown: {[x[:80] for x in p.pre][:2]})', shown=p.pre[:2], **w2)
     # an object showing a docstring that is not its own (an overriding method without docstring): same rule, in a system of its
